@@ -15,7 +15,9 @@ RULE = ("seeded federated configurations (gvh/fedlab: supergraph of 3-10 object 
         "has a field in another subgraph, lists holding every implementer, and (knob 'nestedlists', likewise) fields of type "
         "[[T]] / [[[T]]] in every nullability combination, T an entity with fields in other subgraphs -- so that _entities "
         "fetches have their parent objects below a list of lists --, a value / local type, an interface, a union or a scalar, "
-        "also declared by interfaces, with null / empty inner lists, null items and entities repeated across inner lists; composition contract in harness/fedlab/CONTRACT.md), a key-consistent data "
+        "also declared by interfaces, with null / empty inner lists, null items and entities repeated across inner lists, and "
+        "(knob 'listrequires', likewise) @requires inputs that are list-valued leaves of type [T] / [T]! / [T!] / [T!]! / [[T]] "
+        "holding null items, null and empty lists and repeated values; composition contract in harness/fedlab/CONTRACT.md), a key-consistent data "
         "universe per configuration (nullable positions sometimes null or failing, entity lists with repeats such as "
         "a,a,b,c,b and nulls in the middle), and 5 "
         "valid-by-construction operations per configuration (nesting across subgraph boundaries, aliases, named and "
@@ -61,6 +63,13 @@ def classify(case, detail):
     # (the response key may be an alias: the expected value "rqN[..]" names the @requires field)
     if clause == "data_equal" and re.search(r'\.(rq\d+(_\d+)?|al\d+): null vs (\\22|\\?")rq\d+\[', detail) \
             and "(requires t)" in case and "(provides t)" in case and "(abstract t)" in case:
+        return "requires-input-provided-in-one-fragment"
+    # the same when the requiring subgraph, asked with the null input, answers null for the whole entity and a non-null
+    # sibling field of that fetch nulls the enclosing object: the difference sits above the @requires field, so the
+    # harness' diagnosis is used -- a representation carried null for a @requires input that is non-null in the universe
+    # and that another subgraph @provides
+    if clause == "data_equal" and "(requires t)" in case and "(provides t)" in case and "(abstract t)" in case \
+            and ": null vs " in detail and re.search(r"requires inputs sent as null \{\w+\.\w+@\w+\(provided by \w+\)", detail):
         return "requires-input-provided-in-one-fragment"
     # a subgraph error of an entity fetch that only a non-matching parent type condition asked for
     if clause == "errors_iff" and "gateway=true reference=false" in detail and "(abstract t)" in case \
@@ -121,6 +130,7 @@ def distribution(cases):
          "same_inner_key_under_several_condition_combinations": 0, "configs_with_knob_scopedhops": 0,
          "interface_entity_hop_under_several_scopes": 0, "configs_with_knob_nestedlists": 0,
          "list_of_lists_selected": 0, "entity_fetch_below_list_of_lists": 0,
+         "configs_with_knob_listrequires": 0, "requires_field_with_list_valued_input_selected": 0,
          "engine_panics": 0, "gateway_reported_errors": 0, "member_order_differs": 0, "knob_tiers": {}}
     for c in cases:
         for name, rx in (("subgraphs", r"\(subgraphs (\d+)\)"), ("fetches_per_plan", r"\(fetches (\d+)\)"),
@@ -135,7 +145,8 @@ def distribution(cases):
                           ("abstract_field_under_abstract_parent", "covfield"), ("with_covariant_narrowing", "covnarrowed"),
                           ("same_inner_key_under_several_condition_combinations", "covsamekey"),
                           ("interface_entity_hop_under_several_scopes", "scopedhop"),
-                          ("list_of_lists_selected", "nestedlist"), ("entity_fetch_below_list_of_lists", "nestedhop")):
+                          ("list_of_lists_selected", "nestedlist"), ("entity_fetch_below_list_of_lists", "nestedhop"),
+                          ("requires_field_with_list_valued_input_selected", "listrequires")):
             if "(%s t)" % tag in c:
                 d[name] += 1
         if "(gwerrors t)" in c:
@@ -153,7 +164,9 @@ def distribution(cases):
                 d["configs_with_knob_scopedhops"] += 1
             if "nestedlists" in m.group(1).split(","):
                 d["configs_with_knob_nestedlists"] += 1
-            n = len([k for k in m.group(1).split(",") if k not in ("covariant", "scopedhops", "nestedlists")])
+            if "listrequires" in m.group(1).split(","):
+                d["configs_with_knob_listrequires"] += 1
+            n = len([k for k in m.group(1).split(",") if k not in ("covariant", "scopedhops", "nestedlists", "listrequires")])
             tier = "minimal" if n <= 6 else ("medium" if n <= 26 else "full")
             d["knob_tiers"][tier] = d["knob_tiers"].get(tier, 0) + 1
     for k in ("subgraphs", "fetches_per_plan", "entity_fetches"):
@@ -228,7 +241,8 @@ def run(chk):
             "|Fragment cannot be spread here as objects of type|upstream merge aliases .__internal_merge"
             "|frames: pkg/ast...Document..AddSelection|Cannot query field .* on type .*Query.*path: .query.$"
             "|selected under [0-9]+ condition combination.*; plan fields .*parentOn="
-            "|[0-9]+..[0-9]+.[^ ]*: members .*; plan fields ..; upstream")
+            "|[0-9]+..[0-9]+.[^ ]*: members .*; plan fields ..; upstream"
+            "|requires inputs sent as null .[A-Z]")
     state, samples, allcases = {}, [], []
     corpus = os.path.join(vlib.ROOT, "corpus", "C01")
     if glob.glob(os.path.join(corpus, "*.json")):
